@@ -334,6 +334,35 @@ def expandExprInd (ref : Param) (env : Str → Option Param) (nounset : Bool) (m
     | some e => { res := .ok (if hasPat then mapFields e (removeWith k m) else e) }
     | none => { res := .err }
 
+/-! ## scopes: which binding an expansion reads, and what a second evaluation sees -/
+
+/-- a frame of bindings: a function's locals, a temporary environment (`v=x f`), the globals -/
+abbrev Frame := List (Str × Param)
+
+/-- the scope stack, innermost frame first (`ShellEnvironment::get` walks it in this order) -/
+abbrev Scopes := List Frame
+
+def Frame.find (f : Frame) (n : Str) : Option Param := (List.find? (fun b => b.1 = n) f).map (·.2)
+
+/-- the binding of `n` an expansion sees: the innermost one -/
+def visible : Scopes → Str → Option Param
+  | [], _ => none
+  | f :: fs, n =>
+    match Frame.find f n with
+    | some p => some p
+    | none => visible fs n
+
+/-- `${n op …}` evaluated under a scope stack (no binding at all: the name is unset) -/
+def expandIn (sc : Scopes) (n : Str) (nounset : Bool) (m : Str → Bool) (op : Op) : Outcome :=
+  expandExpr ((visible sc n).getD (.named none)) nounset m op
+
+/-- the parameter's state after an expansion (only `=` changes it) -/
+def stateAfter (p : Param) (o : Outcome) : Param :=
+  match o.assigned, p with
+  | some w, .named _ => .named (some w)
+  | some w, .elem _ _ => .elem (some w) true
+  | _, _ => p
+
 /-- the fields a double-quoted `"${…}"` produces from an expansion: `[*]`-style expansions are
 joined with the first character of IFS (a space here), `[@]`-style ones stay separate, a scalar
 is one field -/
